@@ -266,6 +266,8 @@ def language_foundation(ctx):
     pC06.compiled_mode_rules(ctx, "C02.h")   # every configured pattern reaches the compiler, unmodified
     casts.analyze(ctx, {"C17.a"})   # ids of states, groups and classes are injective (no narrowing cast on a count or index)
     minimizer_rules.analyze(ctx, {"C03.a", "C03.b", "C03.c", "C03.d", "C03.e", "C03.f", "C03.g", "C03.h"})
+    from . import adaptors
+    adaptors.analyze(ctx, ("C02.j", "C03.i", "C08.f"))     # no loop of the pipeline drops, truncates or reorders elements
 
 
 
